@@ -416,6 +416,13 @@ class World:
         self.funcs = []                  # (python function item, token)
         self.func_src = []               # (source expression, signature ASTs) of the same items
         self.func_skipped = 0
+        # which F18p trigger applies: the commits of branch fix-c18-5 make the parser read `array(element()?)`;
+        # with them only `Ty.parserGap2` is left of the finding (flags fp2 / fpp2), without them `Ty.parserGap`
+        try:
+            self.P.parse('$v instance of array(element()?)')
+            self.gap_flags = ('fp2', 'fpp2')
+        except Exception:
+            self.gap_flags = ('fp', 'fpp')
         self.ctx_items = [n for n, t in self.nodes if t.split(' ')[1] == 'e'][:3] + [self.root1]
 
     def parser(self, x, c=0):
@@ -663,7 +670,9 @@ class TyGen:
             ta = self.rng.choice(['untyped', 'untyped', 'anyType', 'anySimple',
                                   ('a', names.index('xs:untypedAtomic')), ('a', names.index('xs:anyAtomicType')),
                                   ('a', names.index('xs:string')), ('a', self.atom())])
-            return ('KT', self.rng.choice('ea'), self.rng.choice(['*', 1, 2, 3]), ta, self.rng.random() < 0.2)
+            kind = self.rng.choice('ea')
+            # `T?` exists for element tests only (ElementTest ::= element(N, TypeName '?'?))
+            return ('KT', kind, self.rng.choice(['*', 1, 2, 3]), ta, kind == 'e' and self.rng.random() < 0.2)
         return self.rng.choice([('fany',), ('many',), ('aany',)])
 
     def simple_ty(self, depth=0):
@@ -871,14 +880,22 @@ def judge_cases(run: Run, W: World, cases, label='judgement'):
                 ('function parameter', ip, a['param'], 'function-parameter', '_InlineFunction.__call__.get_argument', pspec)):
             if got is None:
                 continue
-            if op == 'function parameter' and got == 'E:XPST0003' and (a['fpp'] == '1' or ty[0] == 'F'):
+            if op == 'function parameter' and got == 'E:XPST0003' and (a[W.gap_flags[1]] == '1' or ty[0] == 'F'):
                 # the declaration `function($g as T)` itself is rejected by the parser (F18p family): nothing is judged
+                # (INTERIM: with branch fix-c18-5 in the reference tree use a['fpp2'] here)
                 st.count('param:declaration-rejected')
                 continue
-            if a['fp'] == '1':
+            # INTERIM: a['fp'] is the F18p region of the tree without branch fix-c18-5, a['fp2'] what is left of it with
+            # the branch; when the branch is in the reference tree replace a['fp'] by a['fp2'] and drop the flag `fp`
+            if sp_ is None and got == 'E:XPST0051' and has_typed_func(ty):
+                # a list-type / non-atomic name inside a typed function test is a STATIC error of the parser
+                # (XPST0051 while the function test is read), whatever the value: not a judgement
+                st.count('static-XPST0051-in-function-test')
+                continue
+            if a[W.gap_flags[0]] == '1':
                 # the parser rejects / corrupts this legal type (finding F18p): the model of the evaluation
                 # is not claimed here; a wrong answer is the finding, a right one is fine
-                st.count('parser-gap-type')
+                st.count('parser-gap-type' + (':left-with-fix-c18-5' if a['fp2'] == '1' else ''))
                 if sp_ is not None and got != sp_:
                     run.disagree(Disagreement(dict(case, op=op), got, None, sp_, what=what,
                                               site='xpath31 parser: sequence type', tags=itags + ['F18p']))
@@ -1707,6 +1724,7 @@ def correspond(run: Run):
     W, G = build_world(run)
     rng = run.rng
     run.stats.extra['value_classes_without_sample'] = W.no_sample
+    run.stats.extra['parser_gap_trigger'] = 'Ty.parserGap2 (tree with fix-c18-5)' if W.gap_flags[0] == 'fp2' else 'Ty.parserGap'
     run.stats.extra['function_items'] = {'built': len(W.funcs), 'skipped_outside_AST': W.func_skipped}
     # --- restriction: corpus, then random pairs (flat ones are compared with the model)
     pairs = list(corpus_types()['restr'])
